@@ -181,6 +181,23 @@ struct World
             for (int d = 0; d < DIM; ++d) x(off + d) = mode == 1 ? (-2.0 - 0.017 * (off + d) - 0.001 * r.unit()) : v(d) + r.real(-0.3, 0.3);
             off += DIM;
         }
+        if (mode == 2 && !kSimMaps && ORDER == 3 && std::is_same<TM, SplineTrajectory::QuadInvTimeMap>::value)
+        {
+            // an extreme but legal decision value: one time variable far on the negative branch of the bundled map
+            // (duration around or below a millisecond; the cubic solver is diagonally dominant and copes with the ratio)
+            int j = (int)r.below((uint64_t)L.N);
+            x(j) = -44.0 - 16.0 * r.unit();
+            if (RunCtx *c = cur_ctx()) c->count("probe.extreme_time_variable");
+        }
+        if (mode == 3)
+        {
+            // zero and tiny non-zero values in spatial / boundary-derivative coordinates
+            static const double tiny[] = {0.0, 1e-12, -3e-10, 5.5511151231257827e-17, -0.0};
+            int cnt = 1 + (int)r.below(3);
+            for (int q = 0; q < cnt && L.total > L.N; ++q)
+                x(L.N + (int)r.below((uint64_t)(L.total - L.N))) = tiny[(size_t)r.below(5)];
+            if (RunCtx *c = cur_ctx()) c->count("probe.tiny_decision_coordinates");
+        }
         return x;
     }
 
